@@ -77,6 +77,11 @@ class Repo:
         self.branches = dict(branches)
         self.remotes = {'origin': Remote([Ref(b, commits[cid]) for b, cid in sorted(branches.items())])}
 
+    def add_tag(self, name, cid):
+        """a tag that appears later (as after a fetch)"""
+        self.refs["refs/tags/" + name] = self.commits[cid]
+        self.tags[name] = cid
+
     def commit(self, hexsha):
         return self.by_hex[hexsha]
 
